@@ -42,7 +42,7 @@ func amount(r *rand.Rand, ref uint64) uint64 {
 		if ref == 0 {
 			return uint64(r.Intn(100000))
 		}
-		return uint64(r.Int63n(int64(ref%(1<<62)) + 1))
+		return uint64(rnd63(r, ref))
 	}
 }
 
@@ -77,6 +77,11 @@ func subset(r *rand.Rand, pool []uint64, min int) []uint64 {
 		}
 	}
 	return out
+}
+
+// rnd63 draws from [0, n mod 2^62] (never panics)
+func rnd63(r *rand.Rand, n uint64) uint64 {
+	return uint64(r.Int63n(int64(n%(1<<62)) + 1))
 }
 
 func pick[T any](r *rand.Rand, xs []T) T { return xs[r.Intn(len(xs))] }
@@ -359,7 +364,7 @@ func (c *Chain) RandomTx(r *rand.Rand) {
 		bal := c.balance(signer.Addr)
 		amt := amount(r, bal)
 		if r.Intn(3) != 0 && bal > 2 {
-			amt = 1 + uint64(r.Int63n(int64(bal%(1<<62))))
+			amt = 1 + uint64(rnd63(r, bal))
 		}
 		c.Stake(signer, c.feeFor(r, fsm.MessageStakeName), val, amt, cs, delegate, r.Intn(2) == 0, output)
 	case k < 13: // edit stake
@@ -385,7 +390,7 @@ func (c *Chain) RandomTx(r *rand.Rand) {
 		case 1, 2:
 			bal := c.balance(signer.Addr)
 			if bal > 1 {
-				amt = cur + 1 + uint64(r.Int63n(int64(bal%(1<<62))))
+				amt = cur + 1 + uint64(rnd63(r, bal))
 			}
 		case 3:
 			if cur > 1 {
